@@ -124,6 +124,20 @@ class Ledger:
                            "tier": o.tier, "replayed_on_real_code": replayed, "detail": jsonable(o.detail)}, fh, indent=1)
             tail = "" if replayed else " no-failing-input-found"
             print(f"VIOLATION property={self.prop} replay={os.path.relpath(path, OUT)}{tail}")
+        # vacuity guard: every obligation of the committed reference list (expected/<id>.<tier>.json, produced on
+        # the unchanged tree) must have been generated again; a missing one is reported, never counted as proved
+        exp_path = os.path.join(ROOT, "expected", f"{self.prop}.{self.tier}.json")
+        missing = []
+        if os.environ.get("VERIF_WRITE_EXPECTED"):
+            os.makedirs(os.path.dirname(exp_path), exist_ok=True)
+            with open(exp_path, "w") as fh:
+                json.dump(sorted({o.name for o in self.obs if o.tier in ("P", "B")}), fh, indent=0)
+        elif os.path.exists(exp_path):
+            have = {o.name for o in self.obs}
+            missing = [n for n in json.load(open(exp_path)) if n not in have]
+            for n in missing:
+                self.obs.append(Ob(n, UNDECIDED, "not-generated", "P", {"why": "obligation of the reference list was not generated on this run "
+                                                                               "(the code it is anchored in changed shape, or the contract could not be instantiated)"}))
         P = [o for o in self.obs if o.tier == "P"]
         Bt = [o for o in self.obs if o.tier == "B"]
         proved = [o for o in P if o.status == PROVED]
@@ -147,6 +161,7 @@ class Ledger:
             "undecided": [o.name for o in undec][:50],
             "undecided_count": len(undec),
             "known_finding_obligations": known_failed,
+            "missing_expected_obligations": len(missing),
             "bounded_checks": len(Bt),
             "bounded_checks_passed": len([o for o in Bt if o.status == PROVED]),
             "evaluations": len(self.obs),
